@@ -4,14 +4,15 @@
 # Prints one line per property: CAUGHT / MISSED / INCONCLUSIVE and the seconds taken.
 set -u
 PATCH="$(readlink -f "$1")"; shift
-cd /repo || exit 2
-if [ -n "$(git status --porcelain --untracked-files=no)" ]; then echo "/repo is dirty; refusing"; exit 2; fi
+REPO="${REPO:-/repo}"; VERIF="${VERIF:-/verif}"
+cd "$REPO" || exit 2
+if [ -n "$(git status --porcelain --untracked-files=no)" ]; then echo "$REPO is dirty; refusing"; exit 2; fi
 if ! git apply --check "$PATCH" 2>/dev/null; then echo "patch does not apply: $PATCH"; exit 2; fi
 git apply "$PATCH"
-trap 'cd /repo && git checkout -- . ' EXIT
+trap 'cd "$REPO" && git checkout -- . ' EXIT
 for ID in "$@"; do
     start=$(date +%s.%N)
-    out="$(cd /verif && VERIF_SEED="${VERIF_SEED:-0}" ./check "$ID" "${TIER:-quick}" 2>&1)"; rc=$?
+    out="$(cd "$VERIF" && VERIF_SEED="${VERIF_SEED:-0}" ./check "$ID" "${TIER:-quick}" 2>&1)"; rc=$?
     end=$(date +%s.%N)
     t=$(printf "%.1f" "$(echo "$end - $start" | bc)")
     case $rc in
